@@ -476,7 +476,24 @@ def rule_tests(ctx, px):
         "__subclasses__(); aliases of distinct pydsdl classes and Jinja's built-in tests do not collide",
     )
     f = px.func(GEN, "DSDLCodeGenerator._create_instance_tests_for_type")
-    root = f.node.args.args[1].arg
+    root0 = f.node.args.args[1].arg
+    root = root0
+    # the class the entries are made for: the parameter itself (with a recursive call per subclass), or the variable of a loop over a
+    # generator that yields the parameter and, recursively, every class below it
+    walker_ok = None
+    for lp in [n_ for n_ in f.node.body if isinstance(n_, ast.For) and isinstance(n_.target, ast.Name) and isinstance(n_.iter, ast.Call)]:
+        for h in px.resolve_call(f, lp.iter, by_name_fallback=False):
+            hp = [a_.arg for a_ in h.node.args.args if a_.arg not in ("self", "cls")]
+            if len(hp) != 1 or [ast.unparse(a_) for a_ in lp.iter.args] != [root0]:
+                continue
+            yields_root = any(isinstance(st_, ast.Expr) and isinstance(st_.value, ast.Yield) and ast.unparse(st_.value.value) == hp[0] for st_ in h.node.body)
+            rec = [st_ for st_ in h.node.body if isinstance(st_, ast.For) and ast.unparse(st_.iter) == f"{hp[0]}.__subclasses__()" and isinstance(st_.target, ast.Name)
+                   and len(st_.body) == 1 and isinstance(st_.body[0], ast.Expr) and isinstance(st_.body[0].value, ast.YieldFrom)
+                   and isinstance(st_.body[0].value.value, ast.Call) and getattr(st_.body[0].value.value.func, "attr", "") == h.name
+                   and [ast.unparse(a_) for a_ in st_.body[0].value.value.args] == [st_.target.id]]
+            if any(isinstance(y_, (ast.Yield, ast.YieldFrom)) for y_ in ast.walk(h.node)):
+                walker_ok = yields_root and len(rec) == 1 and not any(isinstance(x_, (ast.If, ast.Continue, ast.Break, ast.Return)) for x_ in ast.walk(h.node))
+                root = lp.target.id
     # the predicate: a closure over the class defined here, or made by a private factory that is handed the class
     # (`test = cls._make_test(root)`, where the factory returns its nested function)
     inner = [n for n in f.node.body if isinstance(n, ast.FunctionDef)]
@@ -487,7 +504,7 @@ def rule_tests(ctx, px):
         pred_names = {pred.name}
     else:
         pred = None
-        for st in f.node.body:
+        for st in ast.walk(f.node):
             if isinstance(st, ast.Assign) and isinstance(st.value, ast.Call) and len(st.targets) == 1 and isinstance(st.targets[0], ast.Name) \
                     and [ast.unparse(a_) for a_ in st.value.args] == [root] and not st.value.keywords:
                 for h in px.resolve_call(f, st.value, by_name_fallback=False):
@@ -587,7 +604,10 @@ def rule_tests(ctx, px):
         whole = any(isinstance(r, ast.Return) and isinstance(r.value, ast.Name) and r.value.id in lowered for r in ast.walk(alias_fn.node))
     ctx.ob(R, alias_fn.module.rel, f"{alias_fn.short} :: a name without a known suffix is its own (lower-case) alias", whole, "", alias_fn.node.lineno)
     loops = [n for n in f.node.body if isinstance(n, ast.For)]
-    ok = len(loops) == 1 and ast.unparse(loops[0].iter) == f"{root}.__subclasses__()" and "_create_instance_tests_for_type" in ast.unparse(loops[0])
+    if walker_ok is not None:
+        ok = walker_ok and len(loops) == 1 and not any(isinstance(x_, (ast.If, ast.Continue, ast.Break)) for x_ in ast.walk(loops[0]))
+    else:
+        ok = len(loops) == 1 and ast.unparse(loops[0].iter) == f"{root}.__subclasses__()" and "_create_instance_tests_for_type" in ast.unparse(loops[0])
     ctx.ob(R, f.module.rel, f"{f.short} :: recursion over __subclasses__()", ok, "", f.node.lineno)
     allf = px.func(GEN, "DSDLCodeGenerator._create_all_dsdl_tests")
     roots = []
@@ -609,9 +629,21 @@ def rule_tests(ctx, px):
     init = px.func(GEN, "DSDLCodeGenerator.__init__")
     ok = False
     for lp in ast.walk(init.node):
-        if isinstance(lp, ast.For) and "_create_all_dsdl_tests" in ast.unparse(lp.iter) and isinstance(lp.target, ast.Tuple) and len(lp.target.elts) == 2:
+        if not isinstance(lp, ast.For):
+            continue
+        it = ast.unparse(pyfront.subst_locals(init.node, lp.iter))
+        if "_create_all_dsdl_tests" not in it:
+            continue
+        adds = [c for c in ast.walk(lp) if isinstance(c, ast.Call) and getattr(c.func, "attr", "") == "add_test" and len(c.args) == 2]
+        if isinstance(lp.target, ast.Tuple) and len(lp.target.elts) == 2:
             k, v = (ast.unparse(e) for e in lp.target.elts)
-            ok = any(isinstance(c, ast.Call) and getattr(c.func, "attr", "") == "add_test" and [ast.unparse(x) for x in c.args] == [k, v] for c in ast.walk(lp))
+            ok = any([ast.unparse(x) for x in c.args] == [k, v] for c in adds)
+        elif isinstance(lp.target, ast.Name):
+            # `for name in tests: env.add_test(name, tests[name])`
+            k = lp.target.id
+            ok = any(ast.unparse(c.args[0]) == k and isinstance(c.args[1], ast.Subscript) and ast.unparse(c.args[1].slice) == k
+                     and "_create_all_dsdl_tests" in ast.unparse(pyfront.subst_locals(init.node, c.args[1].value)) for c in adds)
+        ok = ok and not any(isinstance(x_, (ast.If, ast.Continue, ast.Break, ast.Try)) for x_ in ast.walk(lp))
     ctx.ob(R, init.module.rel, f"{init.short} :: tests installed through env.add_test (collision raises)", ok, "", init.node.lineno)
     # alias table from the installed pydsdl hierarchy
     import pydsdl  # the dependency's class hierarchy is data for this rule
